@@ -29,7 +29,7 @@ func fmtGomod() *format {
 			{Name: "example.com/m/v2", Version: "v2.0.0-rc.1", Tag: "major-suffix-prerelease"},
 			{Name: "golang.org/x/sys", Version: "v0.0.0-20220715151400-c0bba94af5f8", Tag: "pseudo-version"},
 			{Name: "github.com/docker/cli", Version: "v25.0.3+incompatible", Tag: "incompatible"},
-			{Name: "github.com/go-playground/validator/v10", Version: "v10.15.0", Tag: "v10"},
+			{Name: "github.com/docker/cli2", Version: "v5.0.3+incompatible", Tag: "name+version-concat-equals-incompatible"},
 		},
 		dims: []dim{
 			{name: "eol", labels: eolLabels},
